@@ -21,11 +21,11 @@ package main
 // `(Iface).Method` for interface-level contracts.
 
 import (
-	"regexp"
 	"bufio"
 	"fmt"
 	"os"
 	"path/filepath"
+	"regexp"
 	"sort"
 	"strings"
 )
